@@ -1641,13 +1641,11 @@ func CharCode(vm *VM, char, code Term, k Cont, env *Env) *Promise {
 		case Variable:
 			return Error(InstantiationError(env))
 		case Integer:
-			r := rune(cd)
-
-			if !utf8.ValidRune(r) {
+			if cd < 0 || cd > unicode.MaxRune || !utf8.ValidRune(rune(cd)) {
 				return Error(representationError(flagCharacterCode, env))
 			}
 
-			return Unify(vm, ch, Atom(r), k, env)
+			return Unify(vm, ch, Atom(rune(cd)), k, env)
 		default:
 			return Error(typeError(validTypeInteger, code, env))
 		}
